@@ -62,13 +62,13 @@ CHECKS = {
     note="Error injection skips the call (no partial effect); truthful short writes are injected separately through an LD_PRELOAD shim (every write returns at most k bytes) and must leave complete streams. Faults are single."),
  "C11": dict(
     level="model_checking", ref="DESIGN.md §4 C11",
-    technique="TLA+ spec RtProc (CAS-guarded life-cycle, thread-local state) checked by TLC over all interleavings; TLC -simulate schedules replayed step by step on libovni through the hook points (drivers/mtdrive) and validated by RtProcTrace.tla; free-running runs under ThreadSanitizer",
-    text="All interleavings of 3 threads over 7 programs at linearization-point granularity with InitOnce, FiniOnce, RecordStableWhileRead, NoOpBeforeReady, Isolation, StMonotone; a load+store 'CAS' is refuted. ~1000 (quick) generated schedules are forced on the real library with gates at ovni_verif_point 1-4 and before each API call; every step outcome, refusal class and the per-thread streams on disk are validated. Free-running programs (no gates) with racing init/fini/thread_init are run many times, also under ThreadSanitizer with relocation (OVNI_TMPDIR) on; the per-operation outcomes of every run must be one of the outcome vectors TLC computes for that program (RtProcFree.tla) and TSan must report nothing.",
+    technique="TLA+ specs RtProc (CAS-guarded life-cycle, thread-local state) and RtAttr (per-thread metadata) checked by TLC over all interleavings; TLC -simulate schedules replayed step by step on libovni through the hook points (drivers/mtdrive) and validated by RtProcTrace.tla; free-running runs under ThreadSanitizer",
+    text="All interleavings of 3 threads over 7 programs at linearization-point granularity with InitOnce, FiniOnce, RecordStableWhileRead, NoOpBeforeReady, Isolation, StMonotone; a load+store 'CAS' is refuted. ~1000 (quick) generated schedules are forced on the real library with gates at ovni_verif_point 1-4 and before each API call; every step outcome, refusal class and the per-thread streams on disk are validated. Free-running programs (no gates) with racing init/fini/thread_init are run many times, also under ThreadSanitizer with relocation (OVNI_TMPDIR) on; the per-operation outcomes of every run must be one of the outcome vectors TLC computes for that program (RtProcFree.tla) and TSan must report nothing. The attribute API (spec RtAttr: metadata tree with parson's dot-path rules, get/has/flush, what ovni_thread_free stores) is explored by TLC and thousands of single- and multi-threaded call sequences are replayed on libovni comparing every return value / death and each thread's stream.json with the tree TLC expects for that thread.",
     note="Schedules are forced at API/hook granularity only; absence of data races in C is observed (TSan), not proved; a CAS weakened to load+store is caught by the model, only probabilistically on the code."),
  "C13": dict(
     level="model_checking", ref="DESIGN.md §4 C13",
-    technique="TLA+ spec PrvTrace (clauses of the property as operators; expected row names from SystemOps) evaluated by TLC on the real .prv/.pcf/.row files of accepted runs over TLC-generated histories of all bounded models and the metadata family",
-    text="Every clause (non-decreasing times, rows in range, header duration = last event time, types declared in the .pcf, labelled state values, .row names/count/order) is evaluated by TLC on the files written by the real emulator for thousands of accepted runs covering all models, marks, tasks, ranks, two looms, multi-process systems and the breakdown files written with -b.",
+    technique="TLA+ specs PrvTrace (clauses of the property as operators; expected row names from SystemOps) and ChanPrv (channel + Paraver writer implementation layer, replayed in process) evaluated by TLC on the real .prv/.pcf/.row files of accepted runs over TLC-generated histories of all bounded models and the metadata family",
+    text="Every clause (non-decreasing times, rows in range, header duration = last event time, types declared in the .pcf, labelled state values, .row names/count/order) is evaluated by TLC on the files written by the real emulator for thousands of accepted runs covering all models, marks, tasks, ranks, two looms, multi-process systems and the breakdown files written with -b. The writer itself is modelled (spec ChanPrv: stack/single channels, propagate phases, prv.c duplicate/zero/NEXT rules, non-decreasing times, header = last advance, track.c modes; 7 refuted wrong variants) and ~19k TLC-exported call sequences are replayed in process on the real chan/bay/prv/track objects (drivers/chanprvharness).",
     note="Speaks of accepted traces only; 64-bit values are folded before TLC; the semantics of breakdown rows is C20, their well-formedness is checked here."),
  "C14": dict(
     level="model_checking", ref="DESIGN.md §4 C14",
@@ -79,12 +79,12 @@ CHECKS = {
     level="model_checking", ref="DESIGN.md §4 C15",
     technique="TLA+ spec SystemOps/System (property layer = function of the union of metadata; implementation layer = sequential first-come merge) checked by TLC over all distributions/orders/contradictions; exported cases materialised and run through ovniemu (verdict, signal, thread.row/cpu.row)",
     text="For every distribution of app_id/rank/loom_cpus over the threads, CPU list order, processing order and every single contradiction of the bounded family TLC checks that the merge agrees with the union semantics and that rows are distribution independent; a deterministic sample and all contradictions are run on the real emulator and rows/verdict/absence of signals compared.",
-    note="2 looms, 3 processes, 5 threads; equal sort keys are Unspecified."),
+    note="2 looms, 3 processes, 5 threads, plus a 3-loom family with rank information on any subset of the looms in 8 (thorough: all 120) processing orders; equal sort keys are Unspecified."),
 
  "C18": dict(
     level="model_checking", ref="DESIGN.md §4 C18",
     technique="TLA+ spec Catalogue (over EmuFull + committed event tables): witness contexts by TLC reachability, verdict for every code of the 8 x 94 x 94 code space, Decode of description templates; probes and decodings replayed on ovnievents / ovniemu / ovnidump",
-    text="TLC finds for each of the 348 listed events the shortest history after which it is accepted, evaluates the reference semantics on all 70,688 three-character codes (invariant: rejected exactly when neither listed nor excepted) and computes the expected ovnidump text for argument vectors; ovnievents output is compared with the committed table in both directions, every listed event is replayed in its witness context, unlisted codes are probed (quick: neighbourhood + sample + payload-shaped probes; thorough: the whole space) and decodings compared.",
+    text="TLC finds for each of the 348 listed events the shortest history after which it is accepted, evaluates the reference semantics on all 70,688 printable three-character codes plus the single-bit changes and bit-7 images of every listed code (thorough: all 397,832 codes with bytes 33..255) (invariant: rejected exactly when neither listed nor excepted) and computes the expected ovnidump text for argument vectors; ovnievents output is compared with the committed table in both directions, every listed event is replayed in its witness context, unlisted codes are probed (quick: neighbourhood + sample + payload-shaped probes; thorough: the whole space) and decodings compared.",
     note="The table is committed data; printf formatting is reproduced for the conversions the catalogue uses."),
  "C20": dict(
     level="model_checking", ref="DESIGN.md §4 C20",
@@ -106,13 +106,13 @@ CHECKS = {
  "C16": dict(
     level="model_checking", ref="DESIGN.md §4 C16",
     technique="TLA+ spec OvniSort (property layer SortedStablePermutation/PrefixUntouched/Idempotent + implementation layer: region automaton, look-back ring, find_destination, stable re-sort, ring rebuild) checked by TLC for refinement over all small streams; exported streams replayed through ovnisort / ovnisort -c / ovniemu and random larger runs validated by OvniSortTrace.tla",
-    text="TLC explores every stream of <=6 events over 3-4 clock values with regions, jumbo events and several ring sizes (0.77M states quick, 9.8M thorough): Impl => Property, tightness of the look-back precondition, idempotence, four refuted negative configurations. ~7400 exported (stream, ring) pairs are materialised byte for byte and the tool's exit status, output order, size, untouched prefix, second run, check mode and emulator verdict compared with TLC's; random streams up to thousands of events and traces with two streams (the look-back ring must not leak between streams) are validated in the recorded direction.",
+    text="TLC explores every stream of <=6 events over 3-4 clock values with regions, jumbo events and several ring sizes (0.77M states quick, 9.8M thorough): Impl => Property, tightness of the look-back precondition, idempotence, four refuted negative configurations. ~7400 exported (stream, ring) pairs are materialised byte for byte and the tool's exit status, output order, size, untouched prefix, second run, check mode and emulator verdict compared with TLC's; random streams up to thousands of events and traces with two streams (the look-back ring must not leak between streams) are validated in the recorded direction; a third of all cases is written with clocks seconds apart (differences beyond 2^31 ns).",
     note="Stability relies on glibc's merge-sort qsort; outside the preconditions the tool may leave the stream unsorted with exit 0 (Unspecified by the property); a second run may fail when the sorted stream no longer satisfies the look-back (file unchanged)."),
 
  "C19": dict(
     level="exploration", ref="DESIGN.md §4 C19 (incl. its stated limit)",
     technique="TLA+ spec Decoder (stream decoder with C integer semantics scaled to 8 bits: guarded variant satisfies CursorInBounds/Progress/HeaderReadInBounds/ReadsWithinEvent, the unguarded arithmetic of the pinned commit is refuted) used to generate the structure-aware input family; all four tools run on it from the ASan+UBSan build with heap-buffer stream loading (hook H1) under timeout",
-    text="TLC proves the guarded decoder design within scaled integers (58k states quick, 23M thorough) and refutes each invariant on the arithmetic of the pinned commit; the transition/boundary classes of the model plus structure-aware mutations (size fields, flags, truncations, payload shapes per handler, unterminated strings, every metadata key x JSON type, random stage) give ~6300 inputs (quick) x 5 tool invocations; a case fails iff a tool dies by a signal, times out, a sanitizer reports or the exit status is not 0/1; failures are grouped by signature.",
+    text="TLC proves the guarded decoder design within scaled integers (58k states quick, 23M thorough) and refutes each invariant on the arithmetic of the pinned commit; the transition/boundary classes of the model plus structure-aware mutations (size fields, flags, truncations, payload shapes per handler, sort windows wider than 2^31/2^32 ns, unterminated strings, every metadata key x JSON type, random stage) give ~6300 inputs (quick) x 5 tool invocations; a case fails iff a tool dies by a signal, times out, a sanitizer reports or the exit status is not 0/1; failures are grouped by signature.",
     note="A TLA+ model cannot establish memory safety of C: claimed is the decoder design within scaled integers plus absence of crashes/hangs/sanitizer reports on the generated family; ASan/UBSan are the observation channel."),
 }
 
